@@ -1,8 +1,15 @@
 /-
   C09 — The pool runs every accepted task exactly once and reports it faithfully.
   Model: JRV.Model.Pool.  Theorems over every reachable state (all interleavings, programs, timings).
+
+    safety     C09_at_most_once, C09_exec_count_phase, C09_single_holder, C09_queue_nodup
+    future     C09_future_faithful, C09_result_faithful
+    stop       C09_none_after_stop            (configuration flag singleCtl: one controlling thread)
+    order      C09_fifo_single, C09_single_worker   (max_threads = 1)
+    liveness   C09_queued_has_server, C09_eventually_once, C09_eventually_begins   (singleCtl, max_threads ≥ 1)
+  Invariants: JRV/Lemmas/Pool*.lean and JRV/Lemmas/PoolC09*.lean.
 -/
-import JRV.Lemmas.PoolTask
+import JRV.Lemmas.PoolC09
 import JRV.Generated
 
 set_option linter.unusedSimpArgs false
@@ -56,38 +63,356 @@ example : ∃ s, run (init { max := 1, min := 0, qbound := 0 } 1)
     (s.tasks.map (·.execCount)) = [1] := by
   refine ⟨_, rfl, ?_⟩; rfl
 
-/-! Statements not (yet) proved — kept at full strength. -/
+/-! ### example runs used by the non-vacuity examples below (one pool, one client thread, one worker) -/
 
-/-- After a `stop()` has returned and before the next `start()` (single controlling thread: flag set, client 0 not
-    inside `stop`), every worker is dead, hence no `task.begin` is enabled. -/
-def C09_none_after_stop_full_statement : Prop :=
-  ∀ (cfg : Config) (n : Nat) (s : State), cfg.singleCtl = true → Reach (init cfg n) s → s.stop = true →
-    (∀ c, s.clients[0]? = some c → (match c.pc with
-        | .stopAcq | .stopPut _ | .stopRel _ | .stopAlive _ | .stopJoin _ | .stopAlive2 _ => False | _ => True)) →
-    ∀ (i : Nat) (w : Worker), s.workers[i]? = some w → w.pc = .dead
+private def c0 (op : Op) : Action := ⟨.client 0, op, false⟩
+private def w0 (op : Op) : Action := ⟨.worker 0, op, false⟩
+/-- `start()` of a pool with `min_threads = max_threads = 1`: one worker is spawned. -/
+private def startRun : List Action :=
+  [c0 .callStart, c0 .eventIsSet, c0 .eventClear, c0 .queueQsize, c0 .lockAcquire, c0 .eventIsSet, c0 .lockRelease]
+/-- `enqueue()` on a running pool whose worker is idle (no new worker). -/
+private def enqRun : List Action := [c0 .callEnqueue, c0 .lockAcquire, c0 .queuePut, c0 .lockRelease]
+/-- `enqueue()` on a pool without workers (stopped, or `min_threads = 0`): the growth test sends it through
+    `__start_thread`. -/
+private def enqGrowRun : List Action :=
+  [c0 .callEnqueue, c0 .lockAcquire, c0 .queuePut, c0 .lockAcquire, c0 .eventIsSet, c0 .lockRelease, c0 .lockRelease]
+/-- The worker takes the head task and begins it. -/
+private def takeBeginRun : List Action := [w0 .eventIsSet, w0 .queueGet, w0 .lockAcquire, w0 .lockRelease, w0 .taskBegin]
+/-- The worker, after the body has ended: future, `task_done`, accounting, retirement test (stays), back to the loop head. -/
+private def finishRun : List Action :=
+  [w0 .futSet, w0 .queueTaskDone, w0 .lockAcquire, w0 .lockRelease, w0 .lockAcquire, w0 .lockRelease]
 
-/-- A done future holds exactly the outcome of its own task's body, and a finished task's future is done as soon as the
-    worker has passed `fut.set`. -/
-def C09_future_faithful_full_statement : Prop :=
-  ∀ (cfg : Config) (n : Nat) (s : State), Reach (init cfg n) s → ∀ (t : Nat) (tk : Task), s.tasks[t]? = some tk →
+/-! ### the future reports the very outcome of its task -/
+
+/-- **A future is done exactly when its task has finished and `fut.set` has been executed, and it then holds that task's
+    own outcome token** (the `ok`/`exc` chosen by the environment at `task.end`).  In every reachable state, for every task:
+    a done future ⇒ the task is finished, the future's value is the task's outcome, and there is one; a finished task whose
+    future is not yet done is held by its owner worker, which stands at `fut.set` holding that very task; a task that is not
+    finished has a future that is not done and no outcome. -/
+theorem C09_future_faithful (cfg : Config) (n : Nat) (s : State) (hr : Reach (init cfg n) s)
+    (t : Nat) (tk : Task) (ht : s.tasks[t]? = some tk) :
     (tk.futDone = true → tk.phase = .finished ∧ tk.futVal = tk.outcome ∧ tk.outcome ≠ none) ∧
     (tk.phase = .finished → tk.futDone = false →
-      ∃ i w, tk.owner = some i ∧ s.workers[i]? = some w ∧ w.pc = .futSet ∧ w.held = some t)
+      ∃ i w, tk.owner = some i ∧ s.workers[i]? = some w ∧ w.pc = .futSet ∧ w.held = some t) ∧
+    (tk.phase ≠ .finished → tk.futDone = false ∧ tk.outcome = none) := by
+  have hF := FutInv_reach hr
+  refine ⟨fun hd => ?_, hF.pend t tk ht, fun hph => ⟨hF.notDone ht hph, ?_⟩⟩
+  · obtain ⟨h1, h2⟩ := hF.done t tk ht hd
+    exact ⟨h1, h2, (hF.fin t tk ht).mp h1⟩
+  · cases ho : tk.outcome with
+    | none => rfl
+    | some o => exact absurd ((hF.fin t tk ht).mpr (by simp [ho])) hph
 
-/-- With `max_threads = 1` tasks begin in acceptance order: the queue is sorted by acceptance index and at most one
-    worker is between `queue.get` and `task.begin`. -/
-def C09_fifo_single_full_statement : Prop :=
-  ∀ (cfg : Config) (n : Nat) (s : State), cfg.max = 1 → Reach (init cfg n) s →
-    (s.workers.countP (fun w => w.pc == .actAcq || w.pc == .actRel || w.pc == .begin)) ≤ 1
+/-- **`FutureResult.result()` yields the outcome of its own task**: the returning step of `result(t)` (not the time-out)
+    is enabled only when task `t` has finished, and the caller then gets `ok` if the body returned and `exc` if it raised. -/
+theorem C09_result_faithful (cfg : Config) (n : Nat) (s s' : State) (hr : Reach (init cfg n) s)
+    (i : Nat) (c : Client) (hc : s.clients[i]? = some c) (t : Nat) (hpc : c.pc = .futWait t)
+    (h : step? s ⟨.client i, .futWait, false⟩ = some s') :
+    ∃ tk o, s.tasks[t]? = some tk ∧ tk.phase = .finished ∧ tk.outcome = some o ∧ s'.tasks = s.tasks ∧
+      s'.clients[i]? = some { pc := .idle, ret := match o with | .ok => .ok | .exc => .exc } := by
+  have hF := FutInv_reach hr
+  have hlt : i < s.clients.length := (List.getElem?_eq_some_iff.mp hc).1
+  simp only [step?, hc, clientStep, hpc] at h
+  split at h
+  · rename_i hready
+    simp at h; subst h
+    unfold futReady at hready
+    cases htk : s.tasks[t]? with
+    | none => simp [htk] at hready
+    | some tk =>
+      simp [htk] at hready
+      obtain ⟨h1, h2⟩ := hF.done t tk htk hready
+      have h3 := (hF.fin t tk htk).mp h1
+      cases ho : tk.outcome with
+      | none => exact absurd ho h3
+      | some o =>
+        refine ⟨tk, o, rfl, h1, ho, rfl, ?_⟩
+        simp [setClient, hlt, futRet, htk, retOfFuture, h2, ho]
+        cases o <;> rfl
+  · simp at h
 
-/-- Liveness reading of "exactly once": in every reachable state with a running pool, a queued task and no running task
-    body, some non-environment action is enabled (no stuck state), and the measure (Σ remaining steps to the next
-    `queue.get` of serving workers) decreases — under weak fairness every accepted task is begun. -/
-def C09_eventually_once_full_statement : Prop :=
-  ∀ (cfg : Config) (n : Nat) (s : State), Reach (init cfg n) s → s.stop = false →
-    (∃ t, Item.task t ∈ s.queue) → (∀ c ∈ s.clients, c.pc = .idle) →
-    ∃ a s', (match a.op with | .taskEnd _ => False | _ => True) ∧ (match a.who with | .worker _ => True | _ => False) ∧
-      step? s a = some s'
+/-- Non-vacuity: a task whose body raised — between `task.end` and `fut.set` the future is not done and the worker stands
+    at `fut.set`; after `fut.set` the future is done with `exc`, the task's own outcome. -/
+example : ∃ s s', run (init { max := 1, min := 1, qbound := 0 } 1) (startRun ++ enqRun ++ takeBeginRun ++ [w0 (.taskEnd .exc)]) = some s ∧
+    run s [w0 .futSet] = some s' ∧
+    s.tasks.map (fun t => (t.phase, t.futDone, t.outcome)) = [(.finished, false, some .exc)] ∧
+    s.workers.map (·.pc) = [.futSet] ∧
+    s'.tasks.map (fun t => (t.phase, t.futDone, t.futVal, t.outcome)) = [(.finished, true, some .exc, some .exc)] := by
+  refine ⟨_, _, rfl, rfl, ?_, ?_, ?_⟩ <;> rfl
+
+/-! ### nothing runs after `stop()` has returned -/
+
+/-- **No task begins after `stop()` has returned, until the next `start()`** — single controlling thread (the
+    configuration flag `singleCtl`: `start`/`stop`/`clear` are issued by client 0 only).  In every reachable state in which
+    the stop flag is set and the controlling thread is not between the `event.set` and the end of the join loop of `stop()`
+    — so: from the end of the join loop, through the `clear()` of `stop()`, after its return, inside any later call
+    of `enqueue`/`join`/`clear`/`stop`, and inside the next `start()` up to its `event.clear` — every worker thread has
+    terminated, and no worker action whatsoever (in particular no `task.begin`) is enabled. -/
+theorem C09_none_after_stop (cfg : Config) (n : Nat) (s : State) (hctl : cfg.singleCtl = true)
+    (hr : Reach (init cfg n) s) (hstop : s.stop = true)
+    (hpc : ∀ c, s.clients[0]? = some c → (match c.pc with
+        | .stopAcq | .stopPut _ | .stopRel _ | .stopAlive _ | .stopJoin _ | .stopAlive2 _ => False | _ => True)) :
+    (∀ (i : Nat) (w : Worker), s.workers[i]? = some w → w.pc = .dead) ∧
+    (∀ (i : Nat) (op : Op) (tmo : Bool), step? s ⟨.worker i, op, tmo⟩ = none) := by
+  have hS := StopInv_reach hctl hr
+  have hall : ∀ (i : Nat) (w : Worker), s.workers[i]? = some w → w.pc = .dead := by
+    refine hS.dead hstop (fun c hc => ?_)
+    have := hpc c hc
+    cases hp : c.pc <;> simp [hp, inStop] at this ⊢
+  refine ⟨hall, fun i op tmo => ?_⟩
+  simp only [step?]
+  cases hw : s.workers[i]? with
+  | none => rfl
+  | some w =>
+    have := hall i w hw
+    simp [workerStep, this]
+
+/-- Non-vacuity: a pool is started (one worker) and stopped; the worker leaves on the flag, `stop()` joins it, drains its
+    sentinel and returns — flag set, controlling thread idle, the worker terminated. -/
+example : ∃ s, run (init { max := 1, min := 1, qbound := 0 } 1)
+    (startRun ++
+     [c0 .callStop, c0 .eventIsSet, c0 .eventSet, c0 .lockAcquire, c0 .queuePut, c0 .lockRelease,
+      w0 .eventIsSet, w0 .lockAcquire, w0 .lockRelease,
+      c0 .threadIsAlive, c0 .lockAcquire, c0 .queueGetNowait, c0 .queueTaskDone, c0 .queueGetNowait, c0 .queueJoin,
+      c0 .lockRelease]) = some s ∧
+    s.cfg.singleCtl = true ∧ s.stop = true ∧ s.clients.map (·.pc) = [.idle] ∧ s.workers.map (·.pc) = [.dead] := by
+  refine ⟨_, rfl, ?_, ?_, ?_, ?_⟩ <;> rfl
+
+/-! ### with a single worker, tasks start in submission order -/
+
+/-- **With `max_threads = 1` tasks begin in the order in which they were accepted.**  Let `a` be accepted (put in the
+    queue by `enqueue`, under the pool lock — its phase is no longer `created`) in a reachable state `s` in which `b` is not
+    yet accepted (no such task yet, or `enqueue` has not reached its `queue.put`).  Then in every state reachable from `s`
+    in which `b` has begun (its body is running or has finished), `a` has begun as well — or was dropped by a `clear()` /
+    `stop()`.  Any number of client threads, any interleaving, any timing. -/
+theorem C09_fifo_single (cfg : Config) (n : Nat) (s s' : State) (hmax : cfg.max = 1)
+    (hr : Reach (init cfg n) s) (hr' : Reach s s')
+    (a b : Nat) (tka : Task) (ha : s.tasks[a]? = some tka) (hacc : tka.phase ≠ .created)
+    (hb : ∀ tkb, s.tasks[b]? = some tkb → tkb.phase = .created)
+    (tkb' : Task) (hb' : s'.tasks[b]? = some tkb') (hbegun : tkb'.phase = .running ∨ tkb'.phase = .finished) :
+    ∃ tka', s'.tasks[a]? = some tka' ∧
+      (tka'.phase = .running ∨ tka'.phase = .finished ∨ tka'.phase = .dropped) := by
+  have hab : a ≠ b := by
+    intro e; subst e
+    exact hacc (hb tka ha)
+  have h0 : FifoPair a b s := by
+    have hbn : phaseAt s b = none ∨ phaseAt s b = some .created := by
+      cases htb : s.tasks[b]? with
+      | none => left; simp [phaseAt, htb]
+      | some tkb => right; exact phaseAt_eq_some.mpr ⟨tkb, htb, hb tkb htb⟩
+    refine ⟨⟨tka.phase, phaseAt_eq_some.mpr ⟨tka, ha, rfl⟩, hacc⟩, fun _ => ?_, fun _ => ?_⟩
+    · rcases hbn with g | g
+      · exact Or.inl g
+      · exact Or.inr (Or.inl g)
+    · rcases hbn with g | g
+      · exact Or.inl g
+      · exact Or.inr (Or.inl g)
+  obtain ⟨⟨pha, hpa, hnc⟩, h1, h2⟩ := FifoPair_reach hab hmax hr hr' h0
+  obtain ⟨tka', hta', hpha⟩ := phaseAt_eq_some.mp hpa
+  have hpb : phaseAt s' b = some tkb'.phase := phaseAt_eq_some.mpr ⟨tkb', hb', rfl⟩
+  refine ⟨tka', hta', ?_⟩
+  subst hpha
+  cases hph : tka'.phase with
+  | created => exact absurd hph hnc
+  | queued =>
+    exfalso
+    rcases h1 (by rw [hpa, hph]) with g | g | ⟨g, _⟩ <;> rw [hpb] at g <;> rcases hbegun with e | e <;> simp [e] at g
+  | held =>
+    exfalso
+    rcases h2 (by rw [hpa, hph]) with g | g | g | g <;> rw [hpb] at g <;> rcases hbegun with e | e <;> simp [e] at g
+  | running => simp
+  | finished => simp
+  | dropped => simp
+
+/-- With `max_threads = 1` at most one worker is inside the loop (anywhere before its exit path) at any time — in
+    particular at most one is between `queue.get` and `task.begin`. -/
+theorem C09_single_worker (cfg : Config) (n : Nat) (s : State) (hmax : cfg.max = 1) (hr : Reach (init cfg n) s) :
+    s.workers.countP (fun w => !exiting w.pc) ≤ 1 := single_worker_in_loop hmax hr
+
+theorem reach_of_run {s s' : State} {as : List Action} (h : run s as = some s') : Reach s s' := by
+  induction as generalizing s with
+  | nil => simp [run] at h; subst h; exact Reach.refl
+  | cons a rest ih =>
+    simp only [run] at h
+    cases hs : step? s a with
+    | none => simp [hs] at h
+    | some s1 =>
+      simp only [hs] at h
+      exact (Reach.step a Reach.refl hs).trans (ih h)
+
+/-- Non-vacuity: two tasks are enqueued before `start()` on a pool with `max_threads = 1`; `s` is the state after the
+    first `enqueue` (task 0 accepted, task 1 does not exist yet), `s'` a later state in which task 1 has begun — task 0
+    has finished there. -/
+example : ∃ s s', run (init { max := 1, min := 0, qbound := 0 } 1) enqGrowRun = some s ∧
+    run s (enqGrowRun ++ startRun ++ takeBeginRun ++ [w0 (.taskEnd .ok)] ++ finishRun ++ takeBeginRun) = some s' ∧
+    s.cfg.max = 1 ∧ s.tasks.map (·.phase) = [.queued] ∧ s'.tasks.map (·.phase) = [.finished, .running] := by
+  refine ⟨_, _, rfl, rfl, ?_, ?_, ?_⟩ <;> rfl
+
+/-! ### a queued task of a running pool is served (liveness, as "no stuck state + variant") -/
+
+/-- **A queued task of a running pool has a worker** (single controlling thread, `max_threads ≥ 1`): flag clear, a task in
+    the queue and no thread about to attempt `__start_thread` (not inside `start()` from its `qsize` read on, not inside
+    the growth branch of `enqueue`) ⇒ `nb_threads ≥ 1`, and some worker counted in `nb_threads` is inside the loop — it is
+    not on an exit path, so it will come back to `queue.get`.  From the exact accounting `nb_pending_task = #queued +
+    #held`, the growth rule of `enqueue`, the spawn rule of `start` and the retirement rule `nb_threads > nb_pending_task`. -/
+theorem C09_queued_has_server (cfg : Config) (n : Nat) (s : State) (hctl : cfg.singleCtl = true) (hmax : 1 ≤ cfg.max)
+    (hr : Reach (init cfg n) s) (hrun : s.stop = false) (t : Nat) (ht : Item.task t ∈ s.queue)
+    (hwin : ∀ c ∈ s.clients, inWindow c = false) :
+    1 ≤ s.nbThreads ∧ ∃ (i : Nat) (w : Worker), s.workers[i]? = some w ∧ counted w = true ∧ serving w.pc = true := by
+  have hLv := LiveInv_reach hctl hr
+  have hq : 1 ≤ s.queue.countP isTask := List.countP_pos_iff.mpr ⟨_, ht, rfl⟩
+  have hw0 : s.clients.countP inWindow = 0 := by
+    rw [List.countP_eq_zero]; intro c hc; simp [hwin c hc]
+  have hm : 1 ≤ s.cfg.max := by rw [reach_cfg hr]; exact hmax
+  have hth := hLv.grow hrun hm hq
+  rw [hw0] at hth
+  refine ⟨hth, ?_⟩
+  rw [hLv.base.count.threads] at hth
+  obtain ⟨w, hwm, hc⟩ := List.countP_pos_iff.mp hth
+  obtain ⟨i, hi⟩ := List.getElem?_of_mem hwm
+  exact ⟨i, w, hi, hc, hLv.serv hrun i w hi hc⟩
+
+private theorem idle_notifyIf (b : Bool) (c : Client) (h : c.pc = .idle) : (notifyIf b c).pc = .idle := by
+  cases c with | mk pc ret => cases b <;> simp_all [notifyIf, notifyClient]
+
+/-- **Every accepted task is eventually begun** — liveness stated as *no stuck state + decreasing variant* (single
+    controlling thread, `max_threads ≥ 1`).  In every reachable state with the flag clear, no client thread inside a call
+    (so no environment action is pending and `start()` has returned) and a task `t` that waits (queued, or taken by a worker
+    and not yet begun):
+
+    1. *no stuck state*: some worker is inside a task body (only then does progress depend on the environment — the body
+       has to end), or some worker action that is neither a time-out nor `task.end` is enabled;
+    2. *variant and closure*: every worker step that is not a time-out strictly decreases `progressMeasure`
+       (`12·|queue| + Σ rank(pc)`), keeps the flag clear and the clients idle, and leaves `t` waiting — or running.
+
+    Hence every maximal run of worker steps from such a state is finite and ends with `t` begun or with a worker inside a
+    task body; under weak fairness and terminating bodies every accepted task begins (`C09_eventually_begins` constructs
+    such a run).  With `C09_at_most_once`: exactly once. -/
+theorem C09_eventually_once (cfg : Config) (n : Nat) (s : State) (hctl : cfg.singleCtl = true) (hmax : 1 ≤ cfg.max)
+    (hr : Reach (init cfg n) s) (hrun : s.stop = false) (hidle : ∀ c ∈ s.clients, c.pc = .idle)
+    (t : Nat) (tk : Task) (ht : s.tasks[t]? = some tk) (hwait : tk.phase = .queued ∨ tk.phase = .held) :
+    ((∃ w ∈ s.workers, w.pc = .body) ∨
+      ∃ (i : Nat) (op : Op) (s' : State), notTaskEnd op = true ∧ step? s ⟨.worker i, op, false⟩ = some s') ∧
+    (∀ (i : Nat) (op : Op) (s' : State), step? s ⟨.worker i, op, false⟩ = some s' →
+      progressMeasure s' < progressMeasure s ∧ s'.stop = false ∧ (∀ c ∈ s'.clients, c.pc = .idle) ∧
+      ∃ tk', s'.tasks[t]? = some tk' ∧ (tk'.phase = .queued ∨ tk'.phase = .held ∨ tk'.phase = .running)) := by
+  have hLv := LiveInv_reach hctl hr
+  have hT := TaskInv_reach hr
+  have hT2 := TaskInv2_reach hr
+  refine ⟨?_, ?_⟩
+  · -- no stuck state
+    cases hlo : s.lockOwner with
+    | some o =>
+      cases o with
+      | client j =>
+        exfalso
+        have hlt := hLv.lock.ocl j hlo
+        have hc : s.clients[j]? = some s.clients[j] := List.getElem?_eq_getElem hlt
+        have hd := hLv.lock.cl j _ hc
+        rw [hidle _ (List.getElem_mem hlt)] at hd
+        simp [cDepth, hlo] at hd
+        rcases hLv.lock.pos with h | h
+        · rw [hlo] at h; cases h
+        · exact h hd.symm
+      | worker j =>
+        obtain ⟨s', hs'⟩ := enabled_release hLv.lock hlo
+        exact Or.inr ⟨j, .lockRelease, s', rfl, hs'⟩
+    | none =>
+      have fin : ∀ (i : Nat) (w : Worker), s.workers[i]? = some w → serving w.pc = true →
+          (w.pc = .get → ∃ t, Item.task t ∈ s.queue) →
+          (∃ w ∈ s.workers, w.pc = .body) ∨
+            ∃ (i : Nat) (op : Op) (s' : State), notTaskEnd op = true ∧ step? s ⟨.worker i, op, false⟩ = some s' := by
+        intro i w hw hserv hget
+        rcases enabled_of_serving hLv.base hLv.lock hLv.nosent hT hlo hrun hw hserv hget with h | ⟨op, h1, s', h2⟩
+        · exact Or.inl ⟨w, List.mem_of_getElem? hw, h⟩
+        · exact Or.inr ⟨i, op, s', h1, h2⟩
+      rcases hwait with hq | hh
+      · have hin := hT2.inq t tk ht hq
+        obtain ⟨_, i, w, hw, _, hserv⟩ := C09_queued_has_server cfg n s hctl hmax hr hrun t hin
+          (fun c hc => by simp [inWindow, hidle c hc])
+        exact fin i w hw hserv (fun _ => ⟨t, hin⟩)
+      · obtain ⟨i, w, hw, _, hpc⟩ := hT2.own t tk ht (Or.inl hh)
+        rw [hh] at hpc
+        refine fin i w hw ?_ ?_
+        · cases hp : w.pc <;> simp [hp, phaseOfPc, serving, exiting] at hpc ⊢
+        · intro e; rw [e] at hpc; simp [phaseOfPc] at hpc
+  · -- the variant decreases and the hypotheses are kept until the task begins
+    intro i op s' hstep
+    simp only [step?] at hstep
+    cases hw : s.workers[i]? with
+    | none => simp [hw] at hstep
+    | some w =>
+      simp only [hw] at hstep
+      obtain ⟨_, hstop, ⟨b, hcl⟩, _⟩ := worker_frame hstep
+      refine ⟨measure_decreases hw hstep, by rw [hstop]; exact hrun, ?_, ?_⟩
+      · intro c hc
+        rw [hcl] at hc
+        obtain ⟨c0, h0, rfl⟩ := List.mem_map.mp hc
+        exact idle_notifyIf b c0 (hidle c0 h0)
+      · have hph : phaseAt s t = some tk.phase := phaseAt_eq_some.mpr ⟨tk, ht, rfl⟩
+        rcases worker_phase_step hw hT hstep t tk.phase hph with g | ⟨e, g⟩ | ⟨e, g⟩ | ⟨e, g⟩
+        · obtain ⟨tk', h1, h2⟩ := phaseAt_eq_some.mp g
+          refine ⟨tk', h1, ?_⟩
+          rcases hwait with h | h
+          · left; rw [h2, h]
+          · right; left; rw [h2, h]
+        · obtain ⟨tk', h1, h2⟩ := phaseAt_eq_some.mp g
+          exact ⟨tk', h1, Or.inr (Or.inl h2)⟩
+        · obtain ⟨tk', h1, h2⟩ := phaseAt_eq_some.mp g
+          exact ⟨tk', h1, Or.inr (Or.inr h2)⟩
+        · rcases hwait with h | h <;> rw [h] at e <;> cases e
+
+/-- The run promised by `C09_eventually_once`: from every such state there is a finite sequence of worker actions —
+    no time-out, no `task.end`, no client action — after which `t` is running (has begun) or some worker is inside a
+    task body. -/
+theorem C09_eventually_begins (cfg : Config) (n : Nat) (s : State) (hctl : cfg.singleCtl = true) (hmax : 1 ≤ cfg.max)
+    (hr : Reach (init cfg n) s) (hrun : s.stop = false) (hidle : ∀ c ∈ s.clients, c.pc = .idle)
+    (t : Nat) (tk : Task) (ht : s.tasks[t]? = some tk) (hwait : tk.phase = .queued ∨ tk.phase = .held) :
+    ∃ (as : List Action) (s' : State),
+      (∀ a ∈ as, a.timeout = false ∧ notTaskEnd a.op = true ∧ ∃ i, a.who = .worker i) ∧ run s as = some s' ∧
+      ((∃ tk', s'.tasks[t]? = some tk' ∧ tk'.phase = .running) ∨ ∃ w ∈ s'.workers, w.pc = .body) := by
+  generalize hm : progressMeasure s = m
+  induction m using Nat.strongRecOn generalizing s tk with
+  | ind m ih =>
+    obtain ⟨stuck, var⟩ := C09_eventually_once cfg n s hctl hmax hr hrun hidle t tk ht hwait
+    rcases stuck with hb | ⟨i, op, s1, hop, hs1⟩
+    · exact ⟨[], s, by simp, rfl, Or.inr hb⟩
+    · obtain ⟨hlt, hstop1, hidle1, tk1, ht1, hph1⟩ := var i op s1 hs1
+      have hr1 : Reach (init cfg n) s1 := Reach.step _ hr hs1
+      have hcons : ∀ (as : List Action),
+          (∀ a ∈ as, a.timeout = false ∧ notTaskEnd a.op = true ∧ ∃ i, a.who = .worker i) →
+          ∀ a ∈ (⟨.worker i, op, false⟩ : Action) :: as,
+            a.timeout = false ∧ notTaskEnd a.op = true ∧ ∃ i, a.who = .worker i := by
+        intro as h a ha
+        rcases List.mem_cons.mp ha with rfl | ha
+        · exact ⟨rfl, hop, i, rfl⟩
+        · exact h a ha
+      have hrec : tk1.phase = .queued ∨ tk1.phase = .held → _ := fun hw1 =>
+        ih (progressMeasure s1) (by omega) s1 hr1 hstop1 hidle1 tk1 ht1 hw1 rfl
+      rcases hph1 with h | h | h
+      · obtain ⟨as, s', h1, h2, h3⟩ := hrec (Or.inl h)
+        exact ⟨_ :: as, s', hcons as h1, by simp [run, hs1, h2], h3⟩
+      · obtain ⟨as, s', h1, h2, h3⟩ := hrec (Or.inr h)
+        exact ⟨_ :: as, s', hcons as h1, by simp [run, hs1, h2], h3⟩
+      · exact ⟨[⟨.worker i, op, false⟩], s1, hcons [] (by simp), by simp [run, hs1], Or.inl ⟨tk1, ht1, h⟩⟩
+
+/-- Non-vacuity: a running pool (one idle worker at the loop head), a task enqueued, every client back to idle — the
+    hypotheses of `C09_queued_has_server`, `C09_eventually_once` and `C09_eventually_begins` hold. -/
+example : ∃ s, run (init { max := 1, min := 1, qbound := 0 } 1) (startRun ++ enqRun) = some s ∧
+    s.cfg.singleCtl = true ∧ 1 ≤ s.cfg.max ∧ s.stop = false ∧ s.clients.map (·.pc) = [.idle] ∧
+    s.queue = [.task 0] ∧ s.tasks.map (·.phase) = [.queued] ∧ s.workers.map (·.pc) = [.loopHead] := by
+  refine ⟨_, rfl, ?_, ?_, ?_, ?_, ?_, ?_, ?_⟩ <;> first | rfl | decide
+
+/-- Why `C09_eventually_once` asks for idle clients: a direct `clear()` on a *running* pool, called while a worker has
+    taken a task and not yet entered its accounting section, reaches a state in which nothing can move — `clear()` holds
+    the pool lock inside `Queue.join()`, the worker needs that lock before it can run the task and call `task_done()`.
+    (`stop()` is not affected: it calls `clear()` only after every worker has terminated, see `C09_none_after_stop`.) -/
+example : ∃ s, run (init { max := 1, min := 1, qbound := 0 } 1)
+      (startRun ++ enqRun ++ [w0 .eventIsSet, w0 .queueGet, c0 .callClear, c0 .lockAcquire, c0 .queueGetNowait]) = some s ∧
+    s.clients.map (·.pc) = [.clrJoin] ∧ s.workers.map (·.pc) = [.actAcq] ∧ s.unfinished = 1 ∧
+    s.lockOwner = some (.client 0) ∧
+    step? s ⟨.client 0, .queueJoin, false⟩ = none ∧ step? s ⟨.worker 0, .lockAcquire, false⟩ = none := by
+  refine ⟨_, rfl, ?_, ?_, ?_, ?_, ?_, ?_⟩ <;> rfl
 
 theorem C09_gen_poolUnlockedAccesses : Generated.poolUnlockedAccesses = some unlockedAccessesSpec := by decide
 theorem C09_gen_poolPendingStores : Generated.poolPendingStores = some pendingStoresSpec := by decide
